@@ -72,6 +72,15 @@ func goomDecode(b []byte) (o obs) {
 		}
 	}()
 	in, err := Decode(b, 64)
+	if err == nil {
+		// anchor inst.go: consumers call Inst.String() / Arg.String() (fix_addr_amd64.go:89, addr.go:31); a panic there counts
+		_ = in.String()
+		for _, a := range in.Args {
+			if a != nil {
+				_ = a.String()
+			}
+		}
+	}
 	return obs{errClass(err), in.Len, in.Op.String(), in.PCRel, in.PCRelOff, in.Opcode}
 }
 
@@ -116,6 +125,12 @@ func TestVerifC16(t *testing.T) {
 	}
 	rw := bufio.NewWriterSize(rf, 1<<20)
 	defer func() { rw.Flush(); rf.Close() }()
+	xf, err := os.Create(os.Getenv("VERIF_OUT") + ".aux")
+	if err != nil {
+		t.Fatal(err)
+	}
+	xw := bufio.NewWriterSize(xf, 1<<20)
+	defer func() { xw.Flush(); xf.Close() }()
 	f, err := os.Open(os.Getenv("VERIF_OPS"))
 	if err != nil {
 		t.Fatal(err)
@@ -129,6 +144,22 @@ func TestVerifC16(t *testing.T) {
 	defer func() { iw.Flush(); ifile.Close() }()
 	sc := bufio.NewScanner(f)
 	sc.Buffer(make([]byte, 1<<16), 1<<20)
+	// goom's own coverage hook (decode.go:220): which table positions did the stream execute?
+	decoderCover = make([]bool, len(decoder))
+	defer func() {
+		cf, err := os.Create(os.Getenv("VERIF_OUT") + ".cover")
+		if err == nil {
+			cw := bufio.NewWriter(cf)
+			for pc, c := range decoderCover {
+				if c {
+					fmt.Fprintln(cw, pc)
+				}
+			}
+			cw.Flush()
+			cf.Close()
+		}
+		decoderCover = nil
+	}()
 	for i := 0; sc.Scan(); i++ {
 		toks := strings.Fields(sc.Text())
 		if len(toks) != 2 || toks[0] != "c16.dec" {
@@ -136,8 +167,21 @@ func TestVerifC16(t *testing.T) {
 		}
 		b := vh.UnHex(toks[1])
 		o := goomDecode(b)
+		r := refDecode(b)
 		fmt.Fprintf(iw, "%d\t%s\n", i, o)
-		fmt.Fprintf(rw, "%d\t%s\n", i, refDecode(b))
+		fmt.Fprintf(rw, "%d\t%s\n", i, r)
+		// side channel for the classification of goom-vs-reference differences: the independent length rule, and the rendered text
+		// (Inst.String() shows Prefix flags and Args, i.e. what decode.go:1243-1517 computes) where the tuples agree
+		if o != r {
+			if n, fam, ok := ilen(b); ok {
+				fmt.Fprintf(xw, "%d\trule %d %s\n", i, n, fam)
+			}
+		} else if o.err == "ok" {
+			gs, _ := goomString(b)
+			if rs := refString(b); gs != rs {
+				fmt.Fprintf(xw, "%d\tstr %q vs %q\n", i, gs, rs)
+			}
+		}
 	}
 }
 
@@ -163,8 +207,14 @@ func TestVerifC16Text(t *testing.T) {
 			fmt.Fprintf(w, "#elf %s error %v\n", name, err)
 			continue
 		}
-		fmt.Fprintf(w, "#elf %s funcs=%d instrs=%d agree=%d differ=%d oracle_fail=%d ref_undecodable=%d distinct_new=%d\n",
-			name, st.funcs, st.instrs, st.agree, st.differ, st.oracleFail, st.refBad, st.distinct)
+		fmt.Fprintf(w, "#elf %s funcs=%d instrs=%d agree=%d differ=%d oracle_fail=%d ref_blind=%d ref_wrong_on_vex=%d rule_vs_ref_differ=%d boundary_only_ok=%d misframed=%d unknown_abandoned=%d rule_validated=%d str_differ=%d str_panic=%d distinct_new=%d\n",
+			name, st.funcs, st.instrs, st.agree, st.differ, st.oracleFail, st.refBlind, st.refWrong, st.ruleDiff, st.boundaryOnly, st.misframed, st.unknown, st.ruleChecked, st.strDiffer, st.strPanic, st.distinct)
+		fams := make([]string, 0, len(st.fams))
+		for k, v := range st.fams {
+			fams = append(fams, fmt.Sprintf("%s=%d", k, v))
+		}
+		sort.Strings(fams)
+		fmt.Fprintf(w, "#fams %s %s\n", name, strings.Join(fams, " "))
 		ops := make([]string, 0, len(st.ops))
 		for k, v := range st.ops {
 			ops = append(ops, fmt.Sprintf("%s=%d", k, v))
@@ -174,13 +224,156 @@ func TestVerifC16Text(t *testing.T) {
 	}
 }
 
+var vexKnownCache map[string]bool
+
+func vexKnownSet() map[string]bool {
+	if vexKnownCache == nil {
+		vexKnownCache = map[string]bool{}
+		for _, f := range strings.Split(os.Getenv("VERIF_VEXKNOWN"), ",") {
+			if f != "" {
+				vexKnownCache[f] = true
+			}
+		}
+	}
+	return vexKnownCache
+}
+
 type textStats struct {
-	funcs, instrs, agree, differ, oracleFail, refBad, distinct int
-	ops                                                        map[string]int
+	funcs, instrs, agree, differ, oracleFail, distinct                          int
+	refBlind, refWrong, ruleDiff, boundaryOnly, misframed, unknown, ruleChecked int
+	strDiffer, strPanic                                                         int
+	ops                                                                         map[string]int
+	fams                                                                        map[string]int
+}
+
+// ilen is a length rule for the instruction families where the reference decoder may be blind, written from the
+// Intel SDM encoding rules and sharing no code or table with x/arch: VEX-encoded instructions (C5 xx / C4 xx xx, opcode,
+// ModRM [+SIB] [+disp] [+imm8]) and the legacy three-byte maps 0F 38 xx /r and 0F 3A xx /r ib after legacy prefixes and REX.
+// Returns the instruction length, a stable family name and whether the rule applies and the bytes suffice.
+func ilen(b []byte) (int, string, bool) {
+	i := 0
+	pp := ""
+	for i < len(b) {
+		switch b[i] {
+		case 0x66, 0xF2, 0xF3:
+			pp = fmt.Sprintf("%02x.", b[i])
+			i++
+			continue
+		case 0x67, 0xF0, 0x26, 0x2E, 0x36, 0x3E, 0x64, 0x65:
+			i++
+			continue
+		}
+		break
+	}
+	if i >= len(b) {
+		return 0, "", false
+	}
+	imm := 0
+	fam := ""
+	switch {
+	case b[i] == 0xC5 && i+2 < len(b):
+		opc := b[i+2]
+		fam = fmt.Sprintf("vex.m1.p%d.%02x", b[i+1]&3, opc)
+		if opc == 0x77 {
+			return i + 3, fam, true
+		}
+		if opc >= 0x70 && opc <= 0x73 || opc == 0xC2 || opc == 0xC4 || opc == 0xC5 || opc == 0xC6 {
+			imm = 1
+		}
+		i += 3
+	case b[i] == 0xC4 && i+3 < len(b):
+		m := b[i+1] & 0x1f
+		opc := b[i+3]
+		fam = fmt.Sprintf("vex.m%d.p%d.%02x", m, b[i+2]&3, opc)
+		switch m {
+		case 1:
+			if opc == 0x77 {
+				return i + 4, fam, true
+			}
+			if opc >= 0x70 && opc <= 0x73 || opc == 0xC2 || opc == 0xC4 || opc == 0xC5 || opc == 0xC6 {
+				imm = 1
+			}
+		case 2:
+		case 3:
+			imm = 1
+		default:
+			return 0, "", false
+		}
+		i += 4
+	default:
+		if b[i] >= 0x40 && b[i] <= 0x4F {
+			i++
+		}
+		if i+2 >= len(b) || b[i] != 0x0F || (b[i+1] != 0x38 && b[i+1] != 0x3A) {
+			return 0, "", false
+		}
+		fam = fmt.Sprintf("%s0f%02x.%02x", pp, b[i+1], b[i+2])
+		if b[i+1] == 0x3A {
+			imm = 1
+		}
+		i += 3
+	}
+	if i >= len(b) {
+		return 0, "", false
+	}
+	modrm := b[i]
+	i++
+	mod, rm := modrm>>6, modrm&7
+	if mod != 3 {
+		if rm == 4 {
+			if i >= len(b) {
+				return 0, "", false
+			}
+			sib := b[i]
+			i++
+			if sib&7 == 5 && mod == 0 {
+				i += 4
+			}
+		} else if rm == 5 && mod == 0 {
+			i += 4
+		}
+		if mod == 1 {
+			i++
+		} else if mod == 2 {
+			i += 4
+		}
+	}
+	i += imm
+	if i > len(b) || i > 15 {
+		return 0, "", false
+	}
+	return i, fam, true
+}
+
+// strOf renders goom's Inst with Inst.String() (which calls every Arg.String(), Prefix.String(), Op.String()) under recover.
+func goomString(b []byte) (s string, panicked bool) {
+	defer func() {
+		if r := recover(); r != nil {
+			s, panicked = fmt.Sprint(r), true
+		}
+	}()
+	in, err := Decode(b, 64)
+	if err != nil {
+		return "", false
+	}
+	return in.String(), false
+}
+
+func refString(b []byte) (s string) {
+	defer func() {
+		if r := recover(); r != nil {
+			s = "panic"
+		}
+	}()
+	in, err := refx86.Decode(b, 64)
+	if err != nil {
+		return ""
+	}
+	return in.String()
 }
 
 func walkELF(path string, seen map[string]bool, w *bufio.Writer) (textStats, error) {
-	st := textStats{ops: map[string]int{}}
+	st := textStats{ops: map[string]int{}, fams: map[string]int{}}
 	ef, err := elf.Open(path)
 	if err != nil {
 		return st, err
@@ -203,7 +396,7 @@ func walkELF(path string, seen map[string]bool, w *bufio.Writer) (textStats, err
 	if err != nil {
 		return st, err
 	}
-	nDiff := 0
+	nDiff, nStr := 0, 0
 	for _, fn := range tab.Funcs {
 		if fn.Entry < ts.Addr || fn.End > ts.Addr+uint64(len(text)) || fn.End <= fn.Entry {
 			continue
@@ -217,13 +410,6 @@ func walkELF(path string, seen map[string]bool, w *bufio.Writer) (textStats, err
 			}
 			win := text[off:hi]
 			r := refDecode(win)
-			if r.err != "ok" || r.len == 0 || r.op == "Op(0)" {
-				st.refBad++
-				off++
-				continue
-			}
-			st.instrs++
-			st.ops[r.op]++
 			g := goomDecode(win)
 			if why := oracle(win, g); why != "" {
 				st.oracleFail++
@@ -231,22 +417,104 @@ func walkELF(path string, seen map[string]bool, w *bufio.Writer) (textStats, err
 					fmt.Fprintf(w, "#oracle %s %s :: %s\n", hex.EncodeToString(win), g, why)
 				}
 			}
-			if g == r {
-				st.agree++
-			} else {
-				st.differ++
-				if nDiff < 50 {
-					nDiff++
-					fmt.Fprintf(w, "#differ %s goom: %s ref: %s fn=%s\n", hex.EncodeToString(win), g, r, fn.Name)
+			refOK := r.err == "ok" && r.len != 0 && r.op != "Op(0)"
+			rn, fam, ruleOK := ilen(win)
+			isVEX := win[0] == 0xC4 || win[0] == 0xC5
+			// Does goom's table have an entry for this VEX opcode at all?  $VERIF_VEXKNOWN lists the (map, pp, opcode) triples that have
+			// a VEX path in the dumped table (computed by tools/x86table.py); for any other VEX opcode both decoders fall through to the
+			// legacy opcode with the same byte ("fallback").
+			vexKnown := isVEX && ruleOK && vexKnownSet()[fam]
+			// Ground truth for the boundary.  VEX-encoded instructions: the independent length rule (the reference shares goom's
+			// lineage and falls back to the legacy one-byte opcode for VEX opcodes its table lacks).  Everything else: the
+			// reference, and the rule where the reference is blind.  Neither: abandon the function (never compare windows that may
+			// start in the middle of an instruction) and count it.
+			n := 0
+			switch {
+			case isVEX && ruleOK:
+				n = rn
+				if refOK && r.len == rn {
+					st.ruleChecked++
+				} else {
+					st.refWrong++
+				}
+			case refOK:
+				n = r.len
+				if ruleOK {
+					st.ruleChecked++
+					if rn != r.len {
+						st.ruleDiff++
+						fmt.Fprintf(w, "#rulediff %s rule=%d ref=%d\n", hex.EncodeToString(win), rn, r.len)
+					}
+				}
+			case ruleOK:
+				n = rn
+				st.refBlind++
+			default:
+				st.unknown++
+				if st.unknown <= 30 {
+					fmt.Fprintf(w, "#unknown %s fn=%s goom: %s\n", hex.EncodeToString(win), fn.Name, g)
 				}
 			}
-			key := string(win[:r.len])
-			if !seen[key] {
-				seen[key] = true
-				st.distinct++
-				fmt.Fprintf(w, "%d %s\n", r.len, hex.EncodeToString(win))
+			if n == 0 {
+				break
 			}
-			off += r.len
+			st.instrs++
+			if refOK && r.len == n && (!isVEX || strings.HasPrefix(r.op, "V")) { // the reference really knows this instruction
+				st.ops[r.op]++
+				// full comparison with the reference
+				if g == r {
+					st.agree++
+					gs, pan := goomString(win)
+					if pan {
+						st.strPanic++
+						fmt.Fprintf(w, "#strpanic %s %s\n", hex.EncodeToString(win), gs)
+					} else if rs := refString(win); gs != rs {
+						st.strDiffer++
+						if nStr < 30 {
+							nStr++
+							fmt.Fprintf(w, "#strdiffer %s goom: %q ref: %q\n", hex.EncodeToString(win), gs, rs)
+						}
+					}
+				} else {
+					st.differ++
+					if nDiff < 50 {
+						nDiff++
+						fmt.Fprintf(w, "#differ %s goom: %s ref: %s fn=%s\n", hex.EncodeToString(win), g, r, fn.Name)
+					}
+				}
+				key := string(win[:n])
+				if !seen[key] {
+					seen[key] = true
+					st.distinct++
+					fmt.Fprintf(w, "%d %s\n", n, hex.EncodeToString(win))
+				}
+			} else {
+				// boundary-only judgement against the independent rule
+				// (a legacy mnemonic for a VEX-encoded instruction is the fallback defect even when the length happens to coincide:
+				//  c5 fd 74 c1 VPCMPEQB is reported as "JE rel8" with a PC-relative field)
+				if g.err == "ok" && g.len == n && g.op != "Op(0)" && (!isVEX || vexKnown) {
+					st.agree++
+					st.boundaryOnly++
+				} else {
+					st.misframed++
+					// class: does goom's table know this opcode at all?  (a real mnemonic that is not the legacy fallback)
+					class := "unknown-to-table"
+					if g.err == "ok" && g.op != "Op(0)" && (!isVEX || vexKnown) {
+						class = "wrong-entry"
+					}
+					k := class + ":" + fam
+					st.fams[k]++
+					if st.fams[k] <= 2 {
+						fmt.Fprintf(w, "#misframed %s %s true_len=%d goom: %s ref: %s fn=%s\n", k, hex.EncodeToString(win), n, g, r, fn.Name)
+					}
+					key := string(win[:n])
+					if !seen[key] {
+						seen[key] = true
+						fmt.Fprintf(w, "M%d %s\n", n, hex.EncodeToString(win))
+					}
+				}
+			}
+			off += n
 		}
 	}
 	return st, nil
